@@ -1139,7 +1139,7 @@ func c12Consistency(c *Ctx) {
 				}
 			}
 		}
-		k := 0
+		k, kErr := 0, 0
 		for _, b := range fn.Blocks {
 			r, ok := blockTerm(b).(*ssa.Return)
 			if !ok || len(r.Results) != 2 {
@@ -1149,6 +1149,9 @@ func c12Consistency(c *Ctx) {
 				continue // before the outcome exists (policy selection failures)
 			}
 			k++
+			if !isNilConst(r.Results[1]) {
+				kErr++ // an exit that can carry a failure
+			}
 			c.Evals++
 			key := fmt.Sprintf("consistency/%s/exit#%d", fnName(fn), k)
 			rule := "outcome/error consistency: once the outcome exists an exit returns (outcome, nil) only on paths no store to outcome.Error reaches, and otherwise (outcome, the error just stored) or (outcome, outcome.Error)"
@@ -1210,8 +1213,10 @@ func c12Consistency(c *Ctx) {
 				}
 			}
 		}
-		if k < 3 {
-			c.Unk("consistency/"+fnName(fn)+"#count", "vacuity guard: exits after the outcome exists", w.FnPos(fn), fmt.Sprintf("%d", k))
+		// vacuity: the rule judged at least two exits after the outcome exists, one of which can carry a failure (a method
+		// that funnels every failure through `outcome.Error = check(…); return outcome, outcome.Error` has exactly that)
+		if k < 2 || kErr == 0 {
+			c.Unk("consistency/"+fnName(fn)+"#count", "vacuity guard: exits after the outcome exists (at least two, one of which can carry a failure)", w.FnPos(fn), fmt.Sprintf("%d exits, %d with an error result", k, kErr))
 		}
 	}
 }
